@@ -136,6 +136,27 @@ class Obj(object):
                         p=lambda x: tuple(ll.compute_pointwise_ll(x)),
                         s=lambda x: _s1(ll.evaluateS1(x)))
 
+    def _build_pm(self, tag):
+        """PredictiveModel: seeded sampling with the caller's (unsorted)
+        time array and parameter vector as watched inputs"""
+        B = self.B
+        um = SymMechModel(B, n_params=2, n_outputs=2)
+        ems = [chi.GaussianErrorModel(),
+               chi.ConstantAndMultiplicativeGaussianErrorModel()]
+        pm = chi.PredictiveModel(um, ems)
+        self.user = dict(mech=um, em=ems[0])
+        self.obj = pm
+        self.n = pm.n_parameters()
+        times = self._watch(np.array([2.5, 0.5, 1.0]))
+
+        def draw(x, df):
+            B.new_rng()
+            res = pm.sample(x, times, n_samples=2, seed=5, return_df=df)
+            if df:
+                return tuple(res['Value']) + tuple(res['Time'])
+            return tuple(np.ravel(np.asarray(res, dtype=object)))
+        self.ops = dict(v=lambda x: draw(x, False), s=lambda x: draw(x, True))
+
     def _build_ll_red_em(self, tag, shared=None):
         """likelihood whose user-supplied error model is a ReducedErrorModel
         that already has a fixed parameter"""
@@ -291,7 +312,8 @@ def case_seq(B, cfg):
         v = seen.get((oi, 'v', which))
         s_ = seen.get((oi, 's', which))
         p_ = seen.get((oi, 'p', which))
-        if v is not None and s_ is not None and op in ('v', 's'):
+        if v is not None and s_ is not None and op in ('v', 's') and \
+                kind != 'pm':
             B.eq('step %d: S1 score = value at the same point (object %d)'
                  % (step, oi), s_[0], v[0])
         if v is not None and p_ is not None and op in ('v', 'p') and \
@@ -382,7 +404,7 @@ def case_shared_models(B, cfg):
 
 
 KINDS = ['ll_pk', 'll_pk_fixed', 'post_pk', 'll_sym', 'hier', 'filterpost',
-         'red_em', 'red_pop', 'filter', 'll_red_em']
+         'red_em', 'red_pop', 'filter', 'll_red_em', 'pm']
 
 
 def jobs(tier):
@@ -400,7 +422,8 @@ def jobs(tier):
                     continue
                 out.append(('seq', 'case_seq', dict(
                     kind=kind, seq=[list(s) for s in seq]), facade))
-        if kind in ('ll_pk', 'll_sym', 'red_em', 'll_pk_fixed', 'll_red_em'):
+        if kind in ('ll_pk', 'll_sym', 'red_em', 'll_pk_fixed', 'll_red_em',
+                    'pm'):
             sib = list(itertools.product(two_ops, repeat=2))
             sib = [s for s in sib if s[0][0] != s[1][0]]
             if not q:
@@ -441,7 +464,7 @@ def jobs(tier):
 
 
 BOUNDS = dict(
-    quick='9 object kinds; all sequences of 2 evaluations from {value, '
+    quick='11 object kinds (incl. seeded sampling from a PredictiveModel with an unsorted time array as watched input); all sequences of 2 evaluations from {value, '
           'pointwise, S1} x {two points} on one object, all interleavings of '
           '2 evaluations over two siblings for 4 kinds; 19 user-model '
           'mutations; 36 sequences evaluations - swap of the fixed '
